@@ -151,7 +151,7 @@ def run_pairs(ctx: Ctx, jobs: List[Tuple[dict, Any]]) -> None:
 def run(ctx: Ctx) -> None:
     rng = random.Random(ctx.seed * 7919 + 16)
     jobs: List[Tuple[dict, Any]] = []
-    for k in range(ctx.pick(60, 1200)):
+    for k in range(ctx.pick(80, 3000)):
         sc = gen_c16(rng, 'c16-%d' % k, ctx.thorough)
         n_inj = sum(1 for s in sc['steps'] if s['op'] in ('query', 'resp'))
         jobs.append((sc, 'all'))
